@@ -267,6 +267,12 @@ pub(crate) async fn shared_rng(
     let id_bytes = (i as u16).to_be_bytes();
     buf_id[32..].copy_from_slice(&id_bytes);
     let commitment = commit(&buf_id);
+    #[cfg(feature = "__verif")]
+    let buf = {
+        let mut buf = buf;
+        crate::verif::tap_bytes("rng.multi.seed", i, &mut buf);
+        buf
+    };
 
     // Step 2) a) Send the commitments to all parties for multi-party cointossing.
     // Broadcast multi-party commitments.
@@ -332,6 +338,14 @@ pub(crate) async fn shared_rng_pairwise(
         bufvec_id[k][32..].copy_from_slice(&id_bytes);
         commitment_vec[k][0] = commit(&bufvec_id[k]);
     }
+    #[cfg(feature = "__verif")]
+    let bufvec = {
+        let mut bufvec = bufvec;
+        for k in (0..n).filter(|k| *k != i) {
+            crate::verif::tap_bytes("rng.pair.seed", k, &mut bufvec[k]);
+        }
+        bufvec
+    };
 
     // Step 2) Send and receive commitments concurrently for pairwise cointossing.
 
@@ -630,6 +644,10 @@ pub(crate) async fn fashare(
 
         c0_c1_cm.push((c0, c1, cm));
         dmvec.push(dm);
+    }
+    #[cfg(feature = "__verif")]
+    for (r, dm) in dmvec.iter_mut().enumerate() {
+        crate::verif::tap_bytes("fashare.dm", r, dm);
     }
 
     let mut c0_c1_cm_k = broadcast(channel, i, n, "fashare comm", &c0_c1_cm).await?;
@@ -1039,6 +1057,11 @@ pub(crate) async fn beaver_aand(
         de_shares.push((a ^ alpha, b ^ beta));
         d_e_dmac_emac.push((a.0 ^ alpha.0, b.0 ^ beta.0, Mac(0), Mac(0)));
     }
+    #[cfg(feature = "__verif")]
+    for (j, (d, e, _, _)) in d_e_dmac_emac.iter_mut().enumerate() {
+        crate::verif::tap_bool("beaver.own_de", 2 * j, d);
+        crate::verif::tap_bool("beaver.own_de", 2 * j + 1, e);
+    }
     let scatter_data: Vec<Vec<(bool, bool, Mac, Mac)>> = (0..n)
         .map(|k| {
             if k != i {
@@ -1114,6 +1137,12 @@ async fn check_dvalue(
         let (_, y, _) = &bucket[0];
         for (_, y_next, _) in bucket.iter().skip(1) {
             d_values[j].push(y.0 ^ y_next.0);
+        }
+    }
+    #[cfg(feature = "__verif")]
+    for (j, d) in d_values.iter_mut().enumerate() {
+        for (m, b) in d.iter_mut().enumerate() {
+            crate::verif::tap_bool("dvalue.own", j * 8 + m, b);
         }
     }
 
